@@ -200,3 +200,7 @@ def check(chk):
                 else:
                     ok = ok and k is True and src(n.ast.value) == 'self._child_policy.distance(host)'
     chk.judge(ok, 'C21.filter', hd, 'HostFilterPolicy.distance: IGNORED iff not predicate, else the child\'s distance', 'filter distance inconsistent with its plan')
+
+    # a datacenter / rack change reaches the policies as down(old location) -> relocate -> up(new location)
+    chk.rule('C21.relocate', 'the control connection brackets set_location_info with profile_manager.on_down / on_up, in that order, so that policies file the host under its old datacenter when removing it')
+    chk.borrow('C42', {'C42.location': 'C21.relocate'}, 'the policy searches the new datacenter for the host, removes nothing and adds it a second time: duplicate / misplaced hosts in plans')
